@@ -50,6 +50,7 @@ def body(ck):
     ck.assumptions = ["bitwise equality of parameter leaves is used to observe 'copied' / 'unchanged'; 'changed' is only ever required to imply the gate, never asserted",
                       "the Polyak identity is recomputed from the observed online and previous target leaves with the same float32 expression tau*o + (1-tau)*t"]
     ck.build_coq(); ck.compile_props()
+    ck.kernel_link()   # num_iterations / DQN.per_iteration / SAC Polyak regenerated from the source = Schedule.v (coq/link/C10_link.v)
     quick = ck.tier == "quick"
     rng = ck.rng
     cases, cj = [], []
